@@ -1,14 +1,172 @@
 /-
-  Driver/StrsD.lean — line protocol of the `strs` engine (owner: the engineer of that engine).
-  `handle` consumes one input line (already split into tokens) and returns the new driver state
-  and one output line.
+  Driver/StrsD.lean — line protocol of the `strs` engine (string model, property C09).
+
+    new <kind> <cap> <hex>            kind ::= box | fixed | bump | mut ; contents <hex> ("-" = empty)
+    op <name> <args…>
+
+  ops (bounds: `i<n>` included, `x<n>` excluded, `u` unbounded; chars are code points in decimal):
+    push <cp> | push_str <hex> | insert <idx> <cp> | insert_str <idx> <hex> | remove <idx> | pop |
+    truncate <n> | clear | retain <oracle: string over k/d/p, "-" = empty> | drain <sb> <eb> <take> |
+    replace_range <sb> <eb> <hex> | extend_from_within <sb> <eb> | split_off <sb> <eb> | into_cstr |
+    cstr <hex-with-nul> | cstr_from_str <hex> | cstr_fmt lit <hex> | cstr_fmt pieces <hex>… |
+    boundary <idx> | valid <hex> | chars
+
+  answer:  <outcome> | <contents hex> | <len> | <cap or ->
+    outcome ::= ok | ok:<value> | err | panic | fault | bad-line
+  `cap` is printed for fixed strings only (the growth policy of growable strings belongs to the
+  buffer engine); for `box` the capacity is the length.
 -/
+import BumpProof.Str.Model
+
 namespace Driver.StrsD
+open Str
+
+inductive Kind where
+  | box | fixed | bump | mut
+  deriving Inhabited, DecidableEq
 
 structure DState where
-  dummy : Nat := 0
+  kind : Kind := .bump
+  s : State := { buf := [], len := 0 }
+  dead : Bool := false
   deriving Inhabited
 
-def handle (d : DState) (_toks : List String) : DState × String := (d, "bad-line")
+def hexDigit (c : Char) : Option Nat :=
+  if '0' ≤ c ∧ c ≤ '9' then some (c.toNat - '0'.toNat)
+  else if 'a' ≤ c ∧ c ≤ 'f' then some (c.toNat - 'a'.toNat + 10)
+  else none
+
+def parseHexAux : List Char → Option Bytes
+  | [] => some []
+  | [_] => none
+  | a :: b :: r => do
+    let x ← hexDigit a
+    let y ← hexDigit b
+    let rest ← parseHexAux r
+    pure (UInt8.ofNat (x * 16 + y) :: rest)
+
+def parseHex (t : String) : Option Bytes :=
+  if t == "-" then some [] else parseHexAux t.toList
+
+def hexChar (n : Nat) : Char :=
+  if n < 10 then Char.ofNat (n + '0'.toNat) else Char.ofNat (n - 10 + 'a'.toNat)
+
+def toHex (l : Bytes) : String :=
+  if l.isEmpty then "-"
+  else String.ofList (l.flatMap (fun b => [hexChar (b.toNat / 16), hexChar (b.toNat % 16)]))
+
+def parseBound (t : String) : Option Bound :=
+  if t == "u" then some .unbounded
+  else match t.toList with
+    | 'i' :: r => (String.ofList r).toNat?.map .incl
+    | 'x' :: r => (String.ofList r).toNat?.map .excl
+    | _ => none
+
+def parseChar (t : String) : Option Char := do
+  let n ← t.toNat?
+  if n < 0xD800 ∨ (0xDFFF < n ∧ n < 0x110000) then some (Char.ofNat n) else none
+
+def parseOracle (t : String) : Option (List Outcome) :=
+  if t == "-" then some []
+  else t.toList.mapM (fun c => if c == 'k' then some Outcome.keep else if c == 'd' then some Outcome.drop
+                               else if c == 'p' then some Outcome.panic else none)
+
+def isFixed : Kind → Bool
+  | .fixed => true
+  | .box => true
+  | _ => false
+
+def showState (k : Kind) (s : State) : String :=
+  let cap := match k with
+    | .fixed => toString s.cap
+    | _ => "-"
+  s!"{toHex s.bytes} | {s.len} | {cap}"
+
+def cps (cs : List Char) : String :=
+  if cs.isEmpty then "-" else ",".intercalate (cs.map (fun c => toString c.toNat))
+
+/-- a `box` keeps exactly its contents: normalise the allocation after every step -/
+def norm (k : Kind) (s : State) : State :=
+  match k with
+  | .box => { buf := s.bytes, len := s.len }
+  | _ => s
+
+def finish {α : Type} (d : DState) (r : Res α) (val : α → String) : DState × String :=
+  match r with
+  | .ok v s =>
+    let s := norm d.kind s
+    let vs := val v
+    ({ d with s := s }, (if vs == "" then "ok" else "ok:" ++ vs) ++ " | " ++ showState d.kind s)
+  | .err s => ({ d with s := s }, "err | " ++ showState d.kind s)
+  | .panic s => let s := norm d.kind s; ({ d with s := s }, "panic | " ++ showState d.kind s)
+  | .fault => ({ d with dead := true }, "fault")
+
+def unit (_ : Unit) : String := ""
+
+def handleOp (d : DState) (toks : List String) : Option (DState × String) :=
+  let fx := isFixed d.kind
+  let s := d.s
+  match toks with
+  | ["push", c] => do pure (finish d (push fx s (← parseChar c)) unit)
+  | ["push_str", h] => do pure (finish d (pushStr fx s (← parseHex h)) unit)
+  | ["insert", i, c] => do pure (finish d (insert fx s (← i.toNat?) (← parseChar c)) unit)
+  | ["insert_str", i, h] => do pure (finish d (insertStr fx s (← i.toNat?) (← parseHex h)) unit)
+  | ["remove", i] => do pure (finish d (remove s (← i.toNat?)) (fun c => toString c.toNat))
+  | ["pop"] => some (finish d (pop s) (fun o => match o with | none => "none" | some c => toString c.toNat))
+  | ["truncate", n] => do pure (finish d (truncate s (← n.toNat?)) unit)
+  | ["clear"] => some (finish d (clear s) unit)
+  | ["retain", o] => do pure (finish d (retain s (← parseOracle o)) unit)
+  | ["drain", a, b, t] => do pure (finish d (drain s (← parseBound a) (← parseBound b) (← t.toNat?)) cps)
+  | ["replace_range", a, b, h] => do pure (finish d (replaceRange fx s (← parseBound a) (← parseBound b) (← parseHex h)) unit)
+  | ["extend_from_within", a, b] => do pure (finish d (extendFromWithin fx s (← parseBound a) (← parseBound b)) unit)
+  | ["split_off", a, b] => do
+    let r := splitOff c09aFixed s (← parseBound a) (← parseBound b)
+    pure (finish d r (fun o =>
+      let o := norm d.kind o
+      toHex o.bytes ++ ":" ++ (match d.kind with | .fixed => toString o.cap | _ => "-")))
+  | ["into_cstr"] => some (finish d (intoCstr fx s) toHex)
+  | ["cstr", h] => do
+    let b ← parseHex h
+    pure (d, "ok:" ++ toHex (allocCstr b))
+  | ["cstr_from_str", h] => do
+    let b ← parseHex h
+    pure (d, "ok:" ++ toHex (allocCstrFromStr b))
+  | "cstr_fmt" :: "lit" :: [h] => do
+    let b ← parseHex h
+    match allocCstrFmt (some b) [] with
+    | .ok v _ => pure (d, "ok:" ++ toHex v)
+    | _ => pure (d, "fault")
+  | "cstr_fmt" :: "pieces" :: hs => do
+    let ps ← hs.mapM parseHex
+    match allocCstrFmt none ps with
+    | .ok v _ => pure (d, "ok:" ++ toHex v)
+    | .err _ => pure (d, "err")
+    | .panic _ => pure (d, "panic")
+    | .fault => pure (d, "fault")
+  | ["boundary", i] => do pure (d, if boundaryOk s (← i.toNat?) then "ok:1" else "ok:0")
+  | ["valid", h] => do pure (d, if validUtf8 (← parseHex h) then "ok:1" else "ok:0")
+  | ["chars"] =>
+    match decode s.bytes with
+    | some cs => some (d, "ok:" ++ cps cs)
+    | none => some (d, "invalid")
+  | _ => none
+
+def parseKind : String → Option Kind
+  | "box" => some .box | "fixed" => some .fixed | "bump" => some .bump | "mut" => some .mut | _ => none
+
+def handle (d : DState) (toks : List String) : DState × String :=
+  match toks with
+  | ["new", k, cap, h] =>
+    match parseKind k, cap.toNat?, parseHex h with
+    | some k, some cap, some b =>
+      let s := State.ofBytes b (match k with | .box => 0 | _ => cap)
+      ({ kind := k, s := s, dead := false }, "ok | " ++ showState k s)
+    | _, _, _ => (d, "bad-line")
+  | "op" :: rest =>
+    if d.dead then (d, "dead")
+    else match handleOp d rest with
+      | some r => r
+      | none => (d, "bad-line")
+  | _ => (d, "bad-line")
 
 end Driver.StrsD
